@@ -9,6 +9,7 @@ BOUNDS = {
              '(also at target and former-output positions); foreign files planted by mutations inside created '
              'directories (o/z, o/d/z) and next to the cache (c/z); histories B.M.B, B.M.C, B.M.F, B.B (file<->dir swap); a foreign file appearing '
              'while the second build runs (at a symbolic point between two calls of the user program, families A8c and A4 on B.B); '
+             'skeleton A12 (an output over a possibly foreign file, then a build_file on a NUL-byte or 256-character name) on B and B.M.B; '
              'two builds with overlapping lifetimes in one process (a second build on its own cache started inside the first, which '
              'overwrote a foreign file and then raises); snapshot (inode, content id, mtime) of everything outside the managed set before/after every API call plus an '
              'allow-list over every mutating system call the library makes',
@@ -47,6 +48,10 @@ def families(tier):
                                         'mut_kinds': ['none', 'write', 'mkdir', 'file2dir']}, 'weight': 1})
     # outputs in a hand-made directory are dropped by the next build: the directory is not the library's to remove
     q.append({'name': 'A10', 'params': {'hist': 'BMB', 'kinds': ['is_dir'], 'mut_paths': ['o/d/g', 'o/d/z'], 'mut_kinds': ['none', 'delete', 'write']}, 'weight': 1})
+    # an overwritten foreign file, then a build_file on a name the OS refuses (NUL byte: ValueError; over-long: OSError)
+    q.append({'name': 'A12', 'params': {'hist': 'B', 'kinds': ['is_dir'], 'targets': ['o/f', 'o/d/g']}, 'weight': 1})
+    q.append({'name': 'A12', 'params': {'hist': 'BMB', 'kinds': ['is_dir'], 'targets': ['o/d/g'], 'mut_paths': ['o/d/g', 'o/d'],
+                                        'mut_kinds': ['none', 'write', 'delete', 'dir2file']}, 'weight': 1})
     q.append({'name': 'nested-build', 'params': {}, 'weight': 1})
     q.append({'name': 'S1', 'params': {'hist': 'F'}, 'weight': 1})
     q.append({'name': 'S1', 'params': {'hist': 'BMF', 'mut_paths': ['o/d', 'o/d/g', 'o/z']}, 'weight': 2})
